@@ -85,7 +85,7 @@ def judge_fce(ctx, what, s, ast, asg, fce, wcase):
 
 async def check_expression(ctx, case):
     ast, s = case["ast"], case["s"]
-    rng = ctx.rng
+    rng = ctx.case_rng(case)
     ctx.set_case("expression", case)
     out = capture(parse_condition_expression_to_tree, s)
     if out[0] != "ok":
@@ -112,7 +112,7 @@ async def check_expression(ctx, case):
         judge_fce(ctx, "evaluate_requirement_constraint_tree", s, ast, asg, fce, wcase)
     # what the property talks about: the expression returned by requirement_constraint_evaluation, fed to format_constraint_evaluation
     for asg in (asgs if len(asgs) <= 6 else rng.sample(asgs, 6)):
-        wcase = dict(case, assignments=[asg])
+        wcase = case
         fa = {k: rng.random() < 0.5 for k in G.keys_of(ast, "fc")}
         world = H.world_for(ast, asg, fa)
         aout = await H.async_requirement(s, world)
